@@ -1163,6 +1163,8 @@ class Client:
         key_prefix: bytes = b"",
         expire: Optional[int] = None,
     ) -> dict[Key, Any]:
+        # keys may be a one-shot iterable: it is walked twice below
+        keys = list(keys)
         prefixed_keys = [self.check_key(k, key_prefix=key_prefix) for k in keys]
         remapped_keys = dict(zip(prefixed_keys, keys))
 
